@@ -8,14 +8,14 @@ EXTENDS Common
 TypeAtoms  == {"ca", "signingAuthority", "tsa", "bogus", ""}
 NameAtoms  == {"plain", "dotted", "withSep", "dot", "dotdot", "empty"}
 KindAtoms  == {"missing", "dir", "symlinkDir", "file"}
-EntryAtoms == {"pemCA", "derCA", "multiPEM", "selfSignedLeaf", "leafNotSelfSigned", "nonRootCA", "garbage", "emptyFile", "subdir", "symlinkFile"}
+EntryAtoms == {"pemCA", "derCA", "multiPEM", "multiCAnonRootFirst", "multiCAnonRootLast", "selfSignedLeaf", "leafNotSelfSigned", "nonRootCA", "garbage", "emptyFile", "subdir", "symlinkFile"}
 
 KnownType(t) == t \in {"ca", "signingAuthority", "tsa"}
 PlainName(n) == n \in {"plain", "dotted"}
 (* an entry is a regular file holding one or more parseable certificates that are CA or self-signed certificates -
    and, for tsa stores, self-signed roots *)
 EntryOK(t, e) == IF t = "tsa" THEN e \in {"pemCA", "derCA"}
-                 ELSE e \in {"pemCA", "derCA", "multiPEM", "selfSignedLeaf", "nonRootCA"}
+                 ELSE e \in {"pemCA", "derCA", "multiPEM", "multiCAnonRootFirst", "multiCAnonRootLast", "selfSignedLeaf", "nonRootCA"}
 
 Loads(in) == /\ KnownType(in.type) /\ PlainName(in.name) /\ in.kind = "dir"
              /\ Len(in.entries) >= 1
